@@ -57,8 +57,49 @@ def _judge(res, lists, W, N, K, lens):
     return None
 
 
+def _scripted(n):
+    """The witness names the labelling of every round (positional pattern): run the real front end
+    with the fitting phases scripted and exactly those labellings, so that e.g. a cluster left
+    empty by the final labelling is empty on the real build too."""
+    import fast_ticc
+    from .scripted import Scripted
+    W, N, K, lens, lim = int(n['W']), int(n['N']), int(n['K']), [int(x) for x in n['lens']], int(n.get('limit', 1))
+    rng = np.random.default_rng(7)
+    series = [rng.standard_normal((L, N)) for L in lens]
+    kw = dict(window_size=W, num_clusters=K, iteration_limit=lim, min_cluster_size=1, sparsity_weight=0.1,
+              label_switching_cost=1.0)
+    rounds = [[int(x) for x in r] for r in n['round_labels']]
+    T = sum(L - W + 1 for L in lens)
+    fe = (lambda **k: fast_ticc.ticc_joint_labels(list(series), **k)) if n.get('joint') else \
+         (lambda **k: fast_ticc.ticc_labels(series[0], **k))
+    if n.get('W_first'):
+        W1 = int(n['W_first'])
+        with Scripted({}, K, N * W1, initial=[i % K for i in range(sum(L - W1 + 1 for L in lens))], relabel=None,
+                      scripted=('statistics', 'optimise', 'bic', 'ch', 'initial', 'repopulate')) as sc1:
+            sc1.relabel = [[i % K for i in range(sum(L - W1 + 1 for L in lens))]]
+            try:
+                fe(**dict(kw, window_size=W1))
+            except Exception:
+                pass
+    with Scripted({}, K, N * W, initial=[i % K for i in range(T)], relabel=rounds,
+                  scripted=('statistics', 'optimise', 'bic', 'ch', 'initial', 'repopulate')):
+        res = fe(**kw)
+    lists = res.point_labels if n.get('joint') else [res.point_labels]
+    return res, lists, W, N, K, lens
+
+
 def replay(w):
     n = w['notes']
+    if n.get('round_labels'):
+        try:
+            r = _scripted(n)
+        except Exception as exc:
+            return {'reproduced': True, 'signature': 'front-end-raises-on-a-completed-run',
+                    'observed': {'raised': repr(exc), 'lens': n['lens'], 'W': n['W'], 'W_first': n.get('W_first')}}
+        sig = _judge(*r)
+        return {'reproduced': sig is not None, 'signature': sig,
+                'observed': {'lens': r[5], 'got_lengths': [len(x) for x in r[1]], 'n_mrf': len(r[0].markov_random_fields),
+                             'num_clusters': int(r[0].num_clusters), 'final_labels': n['round_labels'][-1]}}
     # small sizes cannot always be fitted for real (a cluster may come out empty); grow every
     # series by the same amount until the run completes: margins and lengths scale with it
     last = None
